@@ -249,12 +249,188 @@ fn sample_scenario(prop: &str, seed: u64, k: u64, tier: &str, samples: &Samples)
     }
 }
 
+/// Byte-pressure histories: a cache that limits the *bytes* it holds (and forgets, evicts
+/// or starts over when the limit is reached) only shows when a multi-range accessor's
+/// second load crosses the limit while its first range is freshly cached. Fillers are
+/// overlapping ranges of one 1 MiB section (distinct keys, so they all count), sized so
+/// that the cached total sits just below a power-of-two limit when the accessor is called.
+pub fn byte_pressure_cases(thorough: bool) -> u64 {
+    if thorough {
+        8
+    } else {
+        6
+    }
+}
+
+fn byte_pressure_scenario(prop: &str, seed: u64, k: u64, tier: &str) -> Scenario {
+    let thorough = tier == "thorough";
+    let kib = 1024u64;
+    let limits: Vec<u64> = if thorough {
+        vec![64, 128, 256, 512, 1024, 2048, 4096, 8192, 16384, 32768, 65536, 24576]
+    } else {
+        vec![64, 128, 256, 512, 1024, 2048, 4096, 8192, 16384]
+    };
+    let per = 3usize;
+    let groups = (limits.len() + per - 1) / per;
+    let g = (k as usize) % groups;
+    let mut mine: Vec<u64> = limits.iter().skip(g * per).take(per).map(|v| v * kib).collect();
+    mine.sort_unstable();
+    let run_seed = mix(mix(seed, prop_id("C08") ^ 0xb17e), k);
+    let mut gr = Rng::sub(mix(mix(seed, 0xb17e), k), 1);
+    let mut p = GenParams::draw(&mut gr, Bias::Equiv, false);
+    p.c64 = (k as usize / groups) % 2 == 0;
+    p.with_shdrs = true;
+    p.symtab = true;
+    p.dynsym = true;
+    p.versions = true;
+    p.nsyms = 8;
+    p.big = 1 << 20;
+    p.many_sections = 0;
+    p.aliases = 0;
+    p.dup_kinds = false;
+    p.compressed = false;
+    p.xnum_zero = false;
+    p.xnum_sh = false;
+    p.max_pad = 0;
+    let bytes = gen::build(&mut gr, &p);
+    let m = Model::of(&bytes);
+    let big = m
+        .shdrs
+        .iter()
+        .filter(|s| s.typ == hdr::SHT_PROGBITS)
+        .max_by_key(|s| s.size)
+        .copied()
+        .unwrap_or_default();
+    let find = |t: u32| m.shdrs.iter().find(|s| s.typ == t).copied();
+    let linked = |s: &hdr::Shdr| m.shdrs.get(s.link as usize).copied();
+    // (accessor, its ranges in load order)
+    let mut stages: Vec<(crate::ops::Op, Vec<hdr::Shdr>)> = Vec::new();
+    if let Some(d) = find(hdr::SHT_DYNSYM) {
+        let mut v = vec![d];
+        v.extend(linked(&d));
+        stages.push((crate::ops::Op::DynSymTable, v));
+    }
+    if let Some(vs) = find(hdr::SHT_GNU_VERSYM) {
+        let mut v = vec![vs];
+        for t in [hdr::SHT_GNU_VERNEED, hdr::SHT_GNU_VERDEF] {
+            if let Some(x) = find(t) {
+                v.push(x);
+                v.extend(linked(&x));
+            }
+        }
+        stages.push((crate::ops::Op::SymVer, v));
+    }
+    if let Some(st) = find(hdr::SHT_SYMTAB) {
+        let mut v = vec![st];
+        v.extend(linked(&st));
+        stages.push((crate::ops::Op::SymbolTable, v));
+    }
+    let mut ops: Vec<crate::ops::Op> = Vec::new();
+    let mut cached: Vec<(u64, u64)> = Vec::new();
+    let mut total: u64 = 0;
+    let mut filler_id: u64 = 0;
+    for (i, (op, ranges)) in stages.iter().enumerate() {
+        let limit = match mine.get(i) {
+            Some(l) => *l,
+            None => break,
+        };
+        // sizes of the first two ranges this accessor will actually load
+        let fresh: Vec<&hdr::Shdr> = ranges
+            .iter()
+            .filter(|r| !cached.contains(&(r.offset, r.size)))
+            .collect();
+        if fresh.len() >= 2 && big.size > 4096 {
+            let a = fresh[0].size;
+            let b = fresh[1].size.max(2);
+            let target = limit.saturating_sub(a + b / 2);
+            while total < target && filler_id < 100 {
+                let need = target - total;
+                let max_len = big.size - 64;
+                let len = need.min(max_len - (filler_id % 32));
+                if len == 0 {
+                    break;
+                }
+                let off = big.offset + (filler_id % 48);
+                filler_id += 1;
+                if cached.contains(&(off, len)) {
+                    continue;
+                }
+                cached.push((off, len));
+                total += len;
+                ops.push(crate::ops::Op::SectionData(hdr::Shdr {
+                    typ: hdr::SHT_PROGBITS,
+                    offset: off,
+                    size: len,
+                    addralign: 1,
+                    ..Default::default()
+                }));
+            }
+        }
+        ops.push(op.clone());
+        for r in ranges.iter() {
+            if !cached.contains(&(r.offset, r.size)) {
+                cached.push((r.offset, r.size));
+                total += r.size;
+            }
+        }
+    }
+    // once more, everything should be served from the cache
+    for (op, _) in stages.iter() {
+        ops.push(op.clone());
+    }
+    let len = bytes.len() as u64;
+    let mut io = Rng::sub(run_seed, 3);
+    Scenario {
+        prop: prop.to_string(),
+        seed,
+        run: k,
+        tier: tier.to_string(),
+        spec: Spec::Any,
+        durable_len: bytes.len(),
+        recipe: J::obj()
+            .with("source", J::s("generated-byte-pressure"))
+            .with("params", p.to_json())
+            .with("limits_targeted", J::Arr(mine.iter().map(|v| J::u(*v)).collect()))
+            .with("len", J::u(len))
+            .with("class_sig", J::u(0x7000_0000_0000 | k)),
+        image: bytes,
+        suffix: Vec::new(),
+        ops: ops
+            .into_iter()
+            .enumerate()
+            .map(|(i, op)| crate::ops::OpRec {
+                id: (i + 1) as u32,
+                op,
+            })
+            .collect(),
+        reader: ReaderCfg {
+            run_seed,
+            profile: Profile {
+                short_p: 32,
+                short_max: 8192,
+                eintr_p: 4,
+            },
+            init_pos: io.below(len + 6),
+            overrides: Vec::new(),
+            heal_at_epilogue: false,
+            clean_after_failure: false,
+        },
+        epilogue: false,
+        mode: "byte-pressure".into(),
+    }
+}
+
 pub fn build_extra_scenario(prop: &str, seed: u64, k: u64, tier: &str, samples: &Samples) -> Scenario {
     let ns = sample_cases(samples);
     if k < ns {
         return sample_scenario(prop, seed, k, tier, samples);
     }
     let k = k - ns;
+    let nb = byte_pressure_cases(tier == "thorough");
+    if k < nb {
+        return byte_pressure_scenario(prop, seed, k, tier);
+    }
+    let k = k - nb;
     let thorough = tier == "thorough";
     // field sweep first, then the huge-table images (both for C07 and C08)
     let n_sweep = sweep_cases();
